@@ -49,8 +49,10 @@ Print Assumptions C04_first.
    to be in that list.  The list is sound: its members are answers of Search, it is empty exactly
    when Search finds nothing, and the model's own SearchFirst is a member. *)
 Theorem C04_search_first_candidates : forall (t : tree) (f : list level),
-  ((forall v, In v (tsearch_firsts f t) -> In v (tsearch_raw f t)) /   (tsearch_firsts f t = [] <-> tsearch_raw f t = [])) /  (forall v, tsearch_first f t = Some v -> In v (tsearch_firsts f t)).
-Proof. exact (fun t f => conj (tsearch_firsts_sound t f) (tsearch_first_candidate t f)). Qed.
+  (forall v, In v (tsearch_firsts f t) -> In v (tsearch_raw f t)) /\
+  (tsearch_firsts f t = [] <-> tsearch_raw f t = []) /\
+  (forall v, tsearch_first f t = Some v -> In v (tsearch_firsts f t)).
+Proof. exact search_first_candidates. Qed.
 Print Assumptions C04_search_first_candidates.
 
 (* a filter matches a name in one direction iff it does in the other: both are `topic_matches` *)
